@@ -346,7 +346,12 @@ def bSetItemWithOp (s : BState) (c k opv v : Val) : BR :=
             | .ok (nv, s3) =>
               match pySetItem s3 c k' nv with
               | .ok s4 => ret v' s4
-              | .error e => .error e
+              | .error e =>
+                -- `t[i] += [x]` on a TUPLE holding a list: Python extends the list in place and THEN fails to store; an
+                -- error result carries no state here, so that corner is left unmodelled rather than answered wrongly
+                match c, cur with
+                | .tuple _, .ref _ => U "tuple-item-inplace"
+                | _, _ => .error e
 
 /-- `_del` -/
 def bDelItem (s : BState) (c k : Val) : BR :=
